@@ -1,5 +1,6 @@
 import GohtVerif.Model.Compile
 import GohtVerif.Proofs.Lemmas.LexIndent
+import GohtVerif.Proofs.C18
 /-! # C10 — malformed templates are rejected with a located error (local rules, unbounded)
 
 Each theorem is about one documented rule and holds for every lexer / parser configuration in
@@ -147,7 +148,8 @@ theorem illegal_nesting_rejected (p : P) (f : Frame) (rest : List Frame) (e : El
     (ht : p.toks = t :: ts) (hi : t.typ = .indent) (hdeep : e.indent < (t.lit.length : Int)) :
     ∃ err, parseStep p = .error err ∧ err.line = e.origin.line ∧ err.col = e.origin.col := by
   unfold parseStep
-  simp only [P.top, hs, List.head?_cons, Option.getD_some, hf, P.peek, ht, hc, hi, if_true]
+  simp only [P.top, hs, List.head?_cons, Option.getD_some, hf, P.peek, ht, hc, hi, if_true,
+    Bool.not_true, Bool.false_and, Bool.false_eq_true, if_false]
   have : ¬ ((t.lit.length : Int) ≤ e.indent) := by omega
   simp only [this, if_false]
   rcases hd with h | h
@@ -156,8 +158,35 @@ theorem illegal_nesting_rejected (p : P) (f : Frame) (rest : List Frame) (e : El
     · simp [h, h2, errAt]
   · simp [h, errAt]
 
+/-- **Content both inline and nested, inline command form** — when an element's line ends with an
+inline `= @render …` / `= @children` (whose line break the lexer consumes, so that no line-break
+token reaches the element) and a deeper line follows, the element is refused at its own position. -/
+theorem inline_command_and_nested_rejected (p : P) (f : Frame) (rest : List Frame) (e : Elem) (t : Tok) (ts : List Tok)
+    (hs : p.stack = f :: rest) (hf : f.head = .element e) (hc : e.isComplete = false)
+    (hk : 0 < f.kids.length)
+    (ht : p.toks = t :: ts) (hi : t.typ = .indent) (hdeep : e.indent < (t.lit.length : Int)) :
+    ∃ err, parseStep p = .error err ∧ err.line = e.origin.line ∧ err.col = e.origin.col := by
+  unfold parseStep
+  have hnk : ¬ (f.kids.length = 0) := by omega
+  have : ¬ ((t.lit.length : Int) ≤ e.indent) := by omega
+  by_cases hsc : e.tag ∈ Gen.selfClosedTags
+  · simp [P.top, hs, hf, P.peek, ht, hc, hi, hk, this, hsc, errAt]
+  · by_cases h2 : e.isSelfClosing = true
+    · simp [P.top, hs, hf, P.peek, ht, hc, hi, hk, this, hsc, h2, errAt]
+    · simp [P.top, hs, hf, P.peek, ht, hc, hi, hk, this, hsc, h2, errAt]
+
 -- PLANNED: error positions are inside the file — 1 ≤ line ≤ lines(input), 1 ≤ col ≤ len(line)+1 for every token (lexer position theorem, shared with C07)
 -- PLANNED: global composition — every reachable lexer state at a line start dispatches the constructs above to these state functions
--- PLANNED: generate writes nothing when compile fails (CLI model, C18)
+
+/-- **No Go code is emitted for a rejected file by the command-line generator** — in the model of
+`goht generate` (any tree, flags, schedule; any compiler): a template that does not compile and had no
+output has none after the run, and a previous output is left exactly as it was. -/
+theorem generate_emits_nothing_for_rejected (cfg : Gn.Cfg) (fs : Gn.FS) (dom : List Gn.Path) (sched : List Gn.Act)
+    (h : Gn.C18.IsRun cfg fs dom sched) (p : Gn.Path) (s : Gn.File) (hs : fs p = some s)
+    (hrej : cfg.fc s.content = none) :
+    Gn.runWith cfg fs sched p.outOf = fs p.outOf ∧ (fs p.outOf = none → Gn.runWith cfg fs sched p.outOf = none) := by
+  have := Gn.C18.failing_untouched cfg fs dom sched h p s hs hrej
+  exact ⟨this, fun h0 => by rw [this, h0]⟩
+
 
 end GL.C10
